@@ -55,6 +55,11 @@ def entries():
     L.append(e("list.body2", "a: int, b: int, " + P3, '("list_e", [E, %s, ("int", Nil, Nil, b), E], NOLEN)' % INT_A, V3, W3,
                pre=N3, timeout=150))
     L.append(e("list.head.len", "a: int, k: int, " + P3, '("list_e", [%s, E], (Nil, Nil, k))' % INT_A, V3, W3, pre=N3))
+    L.append(e("list.typed.any.mixed", "n: int, vb: bool, vi: int, vb2: bool, m: int, wb: bool, wi: int",
+               '("list_t", ("any", None), NOLEN)', "mklist(n, vb, vi, vb2)", "mklist(m, wb, wi)", pre=["0 <= n <= 3", "0 <= m <= 2", "-2 <= vi <= 2"]))
+    L.append(e("list.typed.anyof.mixed", "n: int, vb: bool, vi: int, m: int, wi: int",
+               '("list_t", ("any", [("bool", Nil), ("int", Nil, Nil, Nil)]), NOLEN)', "mklist(n, vb, vi)", "mklist(m, wi, wi)",
+               pre=["0 <= n <= 2", "0 <= m <= 2", "-2 <= vi <= 2"]))
     L.append(e("list.zoo", "i: int, n: int, v0: int, w: int", '("list", None, NOLEN)', "mklist(n, v0, pick(ZOO_UNCONVERTIBLE, i))", "[w]",
                pre=["0 <= n <= 2"]))
     L.append(e("list.head.zoo", "a: int, i: int, v0: int, w: int", '("list_e", [%s, E], NOLEN)' % INT_A,
@@ -85,6 +90,9 @@ def entries():
                pre=["0 <= sel <= 3"], plain=False, only=("C12",)))
     L.append(e("ph.dict.untyped", "pa: bool, va: int, sel: int, rel: bool, w: int", '("dict", None) if not rel else ("dict", [], True)',
                "mkdict(('a', pa, ... if sel == 0 else va), (..., sel == 1, ...))", "{'a': w}", pre=["0 <= sel <= 2"], plain=False, only=("C12",)))
+    L.append(e("ph.nested.list", "i: int, n: int, w: int", 'pick((("dict", None), ("any", None), ("list", None, NOLEN), ("dict", [], True)), i)',
+               "pick(({'items': mklist(n, ..., ...)}, {'items': mklist(n, ..., ...)}, [mklist(n, ..., ...)], {'items': [mklist(n, ..., ...)]}), i)", "w",
+               pre=["0 <= i <= 3", "0 <= n <= 2"], plain=False, only=("C12",)))
     L.append(e("ph.scalar", "a: int, i: int, w: int", 'pick((%s, ("none",), ("any", None), ("any", [%s, ("none",)]), ("str", Nil, NOLEN, Nil, Nil, Nil)), i)' % (INT_A, INT_A),
                "...", "w", plain=False, only=("C12",), covers=("raised",)))
     # ---- dicts
